@@ -478,7 +478,7 @@ class Ctx:
                         break
             exp = bad[i]
             clause = first_diff(exp, e["o"])
-            cls = classify(e) if classify else ""
+            cls = _classify(classify, e)
             fp = f"{e['op']}/{clause}/{cls}"
             self.violation(fp, f"spec expects {short(shrink(exp))} but code gave {short(shrink(e['o']))} "
                                f"for {e['op']} {short(shrink(e['a']))}",
@@ -519,7 +519,7 @@ class Ctx:
                 n[1] += 1
                 clause = first_diff(v["o"], out)
                 e = {"op": v["op"], "a": v["a"], "o": out}
-                cls = classify(e) if classify else ""
+                cls = _classify(classify, e)
                 fp = f"{v['op']}/{clause}/{cls}"
                 self.violation(fp, f"spec expects {short(shrink(v['o']))} but code gave {short(shrink(out))} "
                                    f"for {v['op']} {short(shrink(v['a']))}",
@@ -796,14 +796,27 @@ def enum_arg(cls, v, *key):
     return cls(v)
 
 
+def _classify(classify, e):
+    """input class for the fingerprint; a classifier written for one operation must not break the verdict for another"""
+    if not classify:
+        return ""
+    if e.get("op") == "obs.pack":
+        return "after-reuse,cls=" + str(e.get("a", {}).get("cls"))
+    try:
+        return classify(e)
+    except Exception:  # noqa
+        return "?"
+
+
 SIDE = []
+CURRENT = []
 
 
 def side_event(op, a, o):
     """A further recorded call observed inside an adapter (validated by TLC like every recorded call): used for the universal
     law 'pack() is the specification's encoding of what the object's own getters report', observed after the caller went on
     using ITS objects (configuration records, headers) for something else."""
-    SIDE.append({"op": op, "a": a, "o": o, "side": 1})
+    SIDE.append({"op": op, "a": a, "o": o, "origin": {"op": CURRENT[0], "a": CURRENT[1]} if CURRENT else None})
 
 
 def side_pack(label, proj, obj):
